@@ -217,12 +217,16 @@ def r02e(ctx, rep, which):
     for w in which:
         spec = WALS[w]
         cr = ctx.crate(spec['crate'])
-        fns = getattr(cr, 'raw_fns', cr.fns)
         f = _find(cr, spec['replay'])
         if f is None:
             rep.violation('R02e', 'anchor-missing', spec['replay'], '-', 'anchor-missing: replay function of %s not found' % w)
             continue
-        f = fns.get(f.name, f)
+        # helpers extracted from the loop are inlined (facts.apply_inlining) and followed with variant / payload tracking; if the
+        # inlined body does not show the record reads, fall back to the raw body with read wrappers
+        fns = cr.fns
+        if len(A.calls_to(f, READ_EXACT)) < 2 and hasattr(cr, 'raw_fns'):
+            fns = cr.raw_fns
+            f = fns.get(f.name, f)
         mod = re.sub(r'::<[^>]*>', '', spec['struct']).rsplit('::', 1)[0]
         wrappers = _read_wrappers(fns, mod)
 
